@@ -8,12 +8,12 @@ mkdir -p $OUT
 INST="-std=gnu11 -O1 -g -fno-inline -fno-omit-frame-pointer -fsanitize=thread --param tsan-distinguish-volatile=1"
 DEFS="-DFIBER_STACK_MALLOC -DFIBER_FAST_SWITCHING -DLIBFIBER_VERIF -DNDEBUG -D_GNU_SOURCE"
 INC="-I$REPO/include -I$REPO/src -I$V/vrt -I$V/drivers"
-LIBSRC="fiber_context fiber_mutex fiber_semaphore fiber_spinlock fiber_cond fiber_barrier fiber_io fiber_rwlock hazard_pointer work_stealing_deque work_queue fiber_event_native"
+LIBSRC="fiber_context fiber_mutex fiber_semaphore fiber_spinlock fiber_cond fiber_barrier fiber_io fiber_rwlock hazard_pointer work_stealing_deque work_queue"
 pids=()
 for f in $LIBSRC; do
   gcc $INST $DEFS $INC -w -c $REPO/src/$f.c -o $OUT/$f.o & pids+=($!)
 done
-for f in wrap_fiber_manager wrap_scheduler wrap_fiber; do
+for f in wrap_fiber_manager wrap_scheduler wrap_fiber wrap_event; do
   gcc $INST $DEFS $INC -w -c $V/vrt/$f.c -o $OUT/$f.o & pids+=($!)
 done
 # module extensions drivers/ext_<mod>.c (all of them, or only those named in $FIBER_EXTS)
